@@ -729,3 +729,43 @@ def link_programs(rng, flavour, n):
                      {"op": "read_hash", "fl": pick_fl(rng, flavour), "sri": hashes.sri("sha256", targets[t])},
                      {"op": "cmptree"}]
         yield prog
+
+
+def abandon_programs(rng, flavour, n):
+    """cancelled writes (async writers only): a write is started, polled once and dropped — the blocking task still
+    stores and hashes the chunk, the answer stays in the writer and is handed to a later write() if it fits.
+    Sess.v OAbandon / OWrite1.  A drop never follows an abandon directly (when the temp file disappears is then a race)."""
+    if flavour == "sync":
+        return
+    sizes = [0, 1, 2, 3, 5, 8, 8, 13, 4096, 70000]
+    for _ in range(n):
+        data_pool = [rand_bytes(rng, rng.choice(sizes)) for _ in range(4)]
+        prog = []
+        nwr = rng.randrange(1, 3)
+        for w in range(1, nwr + 1):
+            keyed = rng.random() < 0.6
+            algo = rng.choice(hashes.ALGOS)
+            op = {"op": "open", "fl": "async", "w": w, "algo": algo}
+            if keyed:
+                op["key"] = kx(rand_key(rng, 0.1)); op["time"] = str(rng.choice([5, 6, 2**64 + 3]))
+            sm = rng.choice(["none", "none", "decl"])
+            if sm == "decl":
+                op["size"] = rng.choice([1, 8, 16, 64, 5000])
+            prog.append(op)
+            k = rng.randrange(1, 6)
+            last_abandon = False
+            for j in range(k):
+                d = rng.choice(data_pool) if rng.random() < 0.7 else rand_bytes(rng, rng.choice(sizes[:8]))
+                if rng.random() < 0.45:
+                    prog.append({"op": "wabandon", "w": w, "data": d.hex()}); last_abandon = True
+                else:
+                    prog.append({"op": "wchunk", "w": w, "data": d.hex(), "mode": rng.choice(["write_all", "write_all", "write"])}); last_abandon = False
+            end = rng.choice(["commit", "commit", "commit", "drop"])
+            if end == "drop" and last_abandon:
+                end = "commit"
+            prog.append({"op": end, "w": w})
+            if keyed:
+                prog.append({"op": "read", "fl": rng.choice(["sync", "async"]), "key": op["key"]})
+                prog.append({"op": "metadata", "fl": "sync", "key": op["key"]})
+        prog.append({"op": "list"})
+        yield prog
